@@ -1,4 +1,5 @@
 import MdpaxV.Model.Batch
 import MdpaxV.Model.Backup
 import MdpaxV.Model.Loop
+import MdpaxV.Model.SemiAsync
 import MdpaxV.Model.Solvers
